@@ -68,7 +68,8 @@ func toEnvVarMap(s interface{}) (map[interface{}]interface{}, error) {
 	}
 	m := map[interface{}]interface{}{}
 	for _, v := range envVars {
-		kv := strings.Split(v, "=")
+		// the value is everything after the first '=' (it may itself contain '=')
+		kv := strings.SplitN(v, "=", 2)
 		if len(kv) == 2 {
 			m[kv[0]] = kv[1]
 		}
